@@ -17,7 +17,17 @@
 (***************************************************************************)
 EXTENDS Vise
 
-NewEngine(s) == [s |-> s, initd |-> FALSE, execd |-> FALSE, exiting |-> FALSE, exit |-> NoVal]
+(* Engine options (engine.Config.ResetOnEmptyInput, DefaultEngine.WithFirst):                                         *)
+(*   cfg.rempty  an empty input restarts the session at the entry node (engine.Reset(force)) before it is handled      *)
+(*   cfg.first   a pre-VM check function runs in the FIRST Exec of every engine object - i.e. in every request of       *)
+(*               persisted operation - in a scratch scope: a pseudo node "_first" is pushed, the code                   *)
+(*               LOAD _first 0 / HALT runs on a private VM whose resource knows nothing but that function, and the     *)
+(*               scope is popped again; if it raised TERMINATE the request stops with the function's result as output. *)
+(*   hold        what init sets aside while the check runs (pending code, page index, input)                           *)
+NoCfg == [rempty |-> FALSE, first |-> FALSE]
+NoHold == [code |-> <<>>, idx |-> 0, input |-> NoInput, depth |-> 0]
+NewEngine(s) == [s |-> s, initd |-> FALSE, execd |-> FALSE, exiting |-> FALSE, exit |-> NoVal, cfg |-> NoCfg, hold |-> NoHold]
+WithCfg(e, cfg) == [e EXCEPT !.cfg = cfg]
 
 \* what survives Save/Load: navigation, index, flags, pending code, cache, language
 Persisted(s) == [path |-> s.path, idx |-> s.idx, flags |-> s.flags, code |-> s.code, c |-> s.c, lang |-> s.lang]
@@ -26,23 +36,66 @@ Volatile(s) == [s EXCEPT !.input = NoInput, !.ctxlang = "", !.mapped = NoMapped,
                          !.menu = <<>>, !.browse = NoBrowse, !.pcount = 0, !.msink = FALSE]
 LoadEngine(s) == NewEngine(Volatile(s))
 
-\* result of a request: [e, cont, err, ran]   (ran: the VM was entered)
+\* result of a request: [e, cont, err, ran]   (ran: the VM was entered for the application's code)
 Q(e, cont, err, ran) == [e |-> e, cont |-> cont, err |-> err, ran |-> ran, panic |-> FALSE]
 
+\* engine.reset after a graceful end: unwinds the whole path (UnwindToEmptyPath, code), clears TERMINATE and DIRTY,
+\* keeps every other flag (so the client flags) and empties the cache
+RECURSIVE Unwind(_)
+Unwind(s) == IF Len(s.path) = 0 THEN s ELSE Unwind(SetC(UpNav(s), Pop(s.c)))
+EngineReset(s) == [Unwind(s) EXCEPT !.flags = @ \ {TERMINATE, DIRTY}]
+RECURSIVE UnwindTo(_, _)
+UnwindTo(s, d) == IF Len(s.path) <= d THEN s ELSE UnwindTo(SetC(UpNav(s), Pop(s.c)), d)
+
 (* incls: class of the client input -- "ok", "bad" (fails every accepted input format), "long" (> 255 bytes) *)
-(* ExecBegin: everything before the VM is entered.  B = [e, run, cont, err]; run = TRUE: the VM must now run e.s *)
+(* Everything before the VM is entered.  B = [e, stage, run, cont, err]                                       *)
+(*   stage "run":   the VM must now run e.s (the application's pending code)                                  *)
+(*   stage "first": the VM must now run e.s (the pre-VM check), then FirstEnd                                  *)
+(*   stage "stop":  the request is over with (cont, err)                                                      *)
+B(x, stage, cont, err) == [e |-> x, stage |-> stage, run |-> stage = "run", cont |-> cont, err |-> err]
+
+(* Exec after init's pre-VM check: entry-node injection, restart on empty input, validation, input, code check *)
+ExecMain(e1, input, incls) ==
+  LET s0 == IF ~e1.initd /\ e1.s.code = <<>> THEN [e1.s EXCEPT !.code = RootCode] ELSE e1.s   \* entry-node injection
+      e2 == [e1 EXCEPT !.s = s0, !.initd = TRUE]
+      \* ResetOnEmptyInput: engine.Reset(force) - a no-op on a session that has no position yet
+      s0r == IF e1.cfg.rempty /\ incls = "ok" /\ input = "" /\ Len(s0.path) > 0 THEN [EngineReset(s0) EXCEPT !.code = RootCode] ELSE s0 IN
+  IF incls = "bad" THEN B(e2, "stop", TRUE, TRUE)                      \* C17: refused, session untouched
+  ELSE IF incls = "long" THEN B(e2, "stop", FALSE, TRUE)
+  ELSE LET s1 == [s0r EXCEPT !.input = In(input), !.ctxlang = s0r.lang] IN
+       IF s1.code = <<>> THEN B([e2 EXCEPT !.s = s1], "stop", FALSE, TRUE)        \* "no code to execute"
+       ELSE B([e2 EXCEPT !.s = s1], "run", TRUE, FALSE)
+
+FirstCode == <<I("LOAD", "_first", "", 0, 0, "sym"), I("HALT", "", "", 0, 0, "")>>
 ExecBegin(e, input, incls) ==
-  LET e1 == [e EXCEPT !.execd = FALSE, !.exiting = FALSE, !.exit = NoVal]
-      B(x, run, cont, err) == [e |-> x, run |-> run, cont |-> cont, err |-> err] IN
+  LET e1 == [e EXCEPT !.execd = FALSE, !.exiting = FALSE, !.exit = NoVal] IN
   \* first Exec on this engine object: SetInput in init refuses an over-long input before anything else happens
-  IF ~e1.initd /\ incls = "long" THEN B(e1, FALSE, FALSE, TRUE)
-  ELSE LET s0 == IF ~e1.initd /\ e1.s.code = <<>> THEN [e1.s EXCEPT !.code = RootCode] ELSE e1.s   \* entry-node injection
-           e2 == [e1 EXCEPT !.s = s0, !.initd = TRUE] IN
-       IF incls = "bad" THEN B(e2, FALSE, TRUE, TRUE)                   \* C17: refused, session untouched
-       ELSE IF incls = "long" THEN B(e2, FALSE, FALSE, TRUE)
-       ELSE LET s1 == [s0 EXCEPT !.input = In(input), !.ctxlang = s0.lang] IN
-            IF s1.code = <<>> THEN B([e2 EXCEPT !.s = s1], FALSE, FALSE, TRUE)        \* "no code to execute"
-            ELSE B([e2 EXCEPT !.s = s1], TRUE, TRUE, FALSE)
+  IF ~e1.initd /\ incls = "long" THEN B(e1, "stop", FALSE, TRUE)
+  \* (a blocked session stays blocked: the check is not run for it)
+  ELSE IF ~e1.initd /\ e1.cfg.first /\ TERMINATE \notin e1.s.flags
+  THEN LET s == e1.s
+           s1 == [SetC([s EXCEPT !.path = Append(@, "_first"), !.idx = 0], Push(s.c))
+                    EXCEPT !.code = FirstCode, !.input = In(input), !.ctxlang = s.lang] IN
+       B([e1 EXCEPT !.s = s1, !.hold = [code |-> s.code, idx |-> s.idx, input |-> s.input, depth |-> Len(s.path)]], "first", TRUE, FALSE)
+  ELSE ExecMain(e1, input, incls)
+
+(* End of the pre-VM check r = [s, err, done, panic].  F = [b, q, over]: over = TRUE -> the request is over with q,     *)
+(* otherwise b is what ExecMain says.                                                                                  *)
+FirstEnd(e, r, input, incls) ==
+  LET s2 == r.s
+      \* the scratch scope is left - every level the check pushed (a failing function makes the private VM move on to _catch) -
+      \* TERMINATE and DIRTY are cleared, the pending code is the session's again.  The page index is the one the session
+      \* had: the check is not a move (C04).
+      s3 == [UnwindTo(s2, e.hold.depth) EXCEPT !.idx = e.hold.idx, !.flags = @ \ {TERMINATE, DIRTY}, !.code = e.hold.code]
+      e3 == [e EXCEPT !.s = s3, !.hold = NoHold]
+      F(b, q, over) == [b |-> b, q |-> q, over |-> over]
+      NoB == B(e3, "stop", FALSE, FALSE) IN
+  IF r.panic THEN F(NoB, [Q(e3, FALSE, TRUE, FALSE) EXCEPT !.panic = TRUE], TRUE)
+  ELSE IF r.err \/ s2.code # <<>> THEN F(NoB, Q(e3, FALSE, TRUE, FALSE), TRUE)
+  ELSE IF TERMINATE \in s2.flags                                                   \* "Pre-VM check says not to continue"
+       THEN LET lst == Last(s3.c) IN
+            F(NoB, Q([e3 EXCEPT !.s = SetC(s3, lst), !.execd = TRUE, !.exit = lst.val], FALSE, FALSE, FALSE), TRUE)
+  ELSE F(ExecMain([e3 EXCEPT !.s.input = e.hold.input], input, incls), Q(e3, TRUE, FALSE, FALSE), FALSE)
 
 (* ExecEnd: classification of the end of the run r = [s, err, done, panic] *)
 ExecEnd(e2, r) ==
@@ -57,15 +110,14 @@ ExecEnd(e2, r) ==
              ELSE Q([e2 EXCEPT !.s = r.s, !.execd = TRUE], FALSE, FALSE, TRUE))
   ELSE Q([e2 EXCEPT !.s = r.s, !.execd = TRUE], TRUE, FALSE, TRUE)
 
+ExecStop(b) == Q(b.e, b.cont, b.err, FALSE)
 ExecReq(e, input, incls) ==
-  LET b == ExecBegin(e, input, incls) IN
-  IF ~b.run THEN Q(b.e, b.cont, b.err, FALSE) ELSE ExecEnd(b.e, Run(b.e.s))
-
-\* engine.reset after a graceful end: unwinds the whole path (UnwindToEmptyPath, code), clears TERMINATE and DIRTY,
-\* keeps every other flag (so the client flags) and empties the cache
-RECURSIVE Unwind(_)
-Unwind(s) == IF Len(s.path) = 0 THEN s ELSE Unwind(SetC(UpNav(s), Pop(s.c)))
-EngineReset(s) == [Unwind(s) EXCEPT !.flags = @ \ {TERMINATE, DIRTY}]
+  LET b0 == ExecBegin(e, input, incls) IN
+  IF b0.stage = "first"
+  THEN LET f == FirstEnd(b0.e, Run(b0.e.s), input, incls) IN
+       IF f.over THEN f.q
+       ELSE IF ~f.b.run THEN ExecStop(f.b) ELSE ExecEnd(f.b.e, Run(f.b.e.s))
+  ELSE IF ~b0.run THEN ExecStop(b0) ELSE ExecEnd(b0.e, Run(b0.e.s))
 
 (* Flush.  rendered: did the page render succeed (decided by Render.tla / logged in trace mode).        *)
 (* Page = what is shown: node, index, error prefix class, mapped values (abstract page descriptor).      *)
